@@ -821,6 +821,12 @@ void fp_inv_sim(fp_t *c, const fp_t *a, int n) {
 	int i;
 	fp_t u, *t = RLC_ALLOCA(fp_t, n);
 
+	if (n == 0) {
+		/* Nothing to invert in an empty list. */
+		RLC_FREE(t);
+		return;
+	}
+
 	fp_null(u);
 
 	RLC_TRY {
